@@ -197,3 +197,12 @@ Fixpoint limit_fold_k (key : list node -> M Z) (maxv : Z) (keep outs : list (lis
 Definition m_staticLimit (key : list node -> M Z) (max_value : Z) (func : list (list node) -> M (list (list node)))
            (args : list (list node)) : M (list (list node)) :=
   bind (func args) (fun outs => limit_fold_k key max_value args outs).
+
+(* a list built from placeholders ([None] * n) used as a list of values: every position must have been filled
+   (Python: AttributeError on None inside PrimitiveTree.__setitem__) *)
+Fixpoint unwrap_all {A} (l : list (option A)) : M (list A) :=
+  match l with
+  | [] => ret []
+  | None :: _ => fail EStuck
+  | Some x :: r => bind (unwrap_all r) (fun r' => ret (x :: r'))
+  end.
